@@ -743,7 +743,7 @@ branch_harness!(c10_branch_build_f2, branch_build_case(Some(2), 2));
 // @stubs xxh3_checksum -> unused; crate::panicking -> false; alloc::fmt::format -> empty
 branch_harness!(c04_branch_route_f2, branch_route_case(Some(2), 2));
 
-// @harness props=C04 tier=thorough timeout=7200 mem=32 stubbing=1 replay=native
+// @harness props=C04 tier=thorough timeout=3600 mem=32 stubbing=1 replay=native attempt=1
 // @desc as c04_branch_route_f2 for variable-width separators of 3 and 0 bytes (attempted: did not close in 1500 s in the quick tier)
 // @functions BranchAccessor::{child_for_key,key,key_end,child_page}, <&[u8] as Key>::compare
 // @bound 1 key / 2 children; variable-width separator of 3 or 0 bytes, query 0..=3 bytes, all bytes arbitrary
